@@ -139,60 +139,101 @@ def r1_r2_init(repo, rep):
   gtxt = full(sgeos, sgeos.ast.value)
   rep.check(gtxt == 'set(%s.index)' % means, 'R1/ingestion', 'geos_in_data = IDs of the table rows', f.qualname, gtxt[:120],
             'geos_in_data is `%s`' % gtxt[:100], f.loc(sgeos.ast), nontrivial=False)
-  # R2 reconciliation
+  # R2 reconciliation, on the set algebra: atoms c, t, x (the eligibility row of a generic geo) and D (the geo is in the data)
   from mmsa.props import c16
-  env3, fields, _ = c16.class_functions(repo)
+  env4, fields4, _ = c16.class_functions(repo, extra_atoms=('D',))
+  D = env4.atom('D')
+  # locals holding the assignment sets of the eligibility object, whatever they are called
+  ga_names = {'geo_assignments'}
+  for n_ in g.nodes:
+    if n_.kind == 'stmt' and isinstance(n_.ast, ast.Assign) and isinstance(n_.ast.value, ast.Call) and norm(n_.ast.value.func).endswith('.get_eligible_assignments') \
+        and not n_.ast.value.args and not n_.ast.value.keywords:
+      for t_ in n_.ast.targets:
+        if isinstance(t_, ast.Name):
+          ga_names.add(t_.id)
+  keepr = tuple(sorted(ga_names)) + ('geos_in_data',)
+
+  def lookup4(x):
+    if isinstance(x, ast.Attribute) and isinstance(x.value, ast.Name) and x.value.id in ga_names:
+      return fields4.get(x.attr)
+    if isinstance(x, ast.Name) and x.id == 'geos_in_data':
+      return D
+    if isinstance(x, ast.Attribute) and norm(x) == 'self.geos_in_data':
+      return D
+    return None
+
+  def set_of(node, e):
+    return boolset.eval_set(env4, rd.expand(node, e, keep=keepr, aliases=True)[0], lookup4)
+  in_table = fields4['all']
+  want_missing = in_table & env4.neg(fields4['x']) & env4.neg(D)          # rows that forbid exclusion, geo absent from the data
+  want_common = in_table & D
+  # the guard raising ValueError for missing must-include geos: a test on a set expression whose non-emptiness leads to a raise
+  guard = None
+  n_guard_candidates = 0
+  for n in g.nodes:
+    if n.kind != 'test':
+      continue
+    for lab in ('true', 'false'):
+      succ = [m_ for m_, l_ in g.succ[n] if l_ == lab]
+      if not succ:
+        continue
+      reach = g.reachable(succ[0], cfgmod.no_exc)
+      if g.exit in reach or not any(r.kind == 'raisestmt' for r in reach):
+        continue
+      e_, neg_ = au.strip_not(n.expr)
+      if (lab == 'true') == neg_:
+        continue          # the raising branch is the one where the set is empty: not a "non-empty -> raise" guard
+      t_ = norm(rd.expand(n, e_, keep=keepr, aliases=True)[0])
+      if 'geos_in_data' not in t_ or not any(nm in t_ for nm in ga_names):
+        continue
+      n_guard_candidates += 1
+      try:
+        guard = (n, e_, set_of(n, e_), reach)
+      except Undecided:
+        pass
   sel, selnode = None, None
   for n in g.nodes:
     if n.kind == 'stmt':
       for sub in walk_no_nested(n.ast):
-        if isinstance(sub, ast.Subscript) and re.search(r'geo_eligibility\.data\.loc$', norm(sub.value)):
+        if isinstance(sub, ast.Subscript) and re.search(r'geo_eligibility\w*\.data\.loc$', norm(sub.value)):
           sel, selnode = sub, n
-  raises = [n for n in g.nodes if n.kind == 'raisestmt' and 'found' in norm(n.ast) or (n.kind == 'raisestmt' and 'Required' in norm(n.ast))]
-  # the guard that rejects missing must-include geos
-  guard = None
-  for n in g.nodes:
-    if n.kind == 'test':
-      tb = [m_ for m_, lab in g.succ[n] if lab == 'true']
-      if tb and g.exit not in g.reachable(tb[0], cfgmod.no_exc) and any(r.kind == 'raisestmt' for r in g.reachable(tb[0], cfgmod.no_exc)):
-        t = rd.expand(n, n.expr, keep=('geo_assignments', 'geos_in_data'))[0]
-        if 'geos_in_data' in norm(t) and 'geo_assignments' in norm(t):
-          guard = (n, t)
-  if guard is None or selnode is None:
-    rep.violation('R2/reconciliation', f.qualname, 'no rejection of missing must-include geos',
-                  'TBRMMData no longer rejects eligibility rows of geos that cannot be excluded but are absent from the data (or no longer narrows the table)', f.loc())
-  else:
-    gn, gt = guard
-    # gt: (CANNOT) - geos_in_data  -> evaluate CANNOT on the class algebra
-    cannot = None
-    if isinstance(gt, ast.BinOp) and isinstance(gt.op, ast.Sub) and norm(gt.right) == 'geos_in_data':
-      cannot = gt.left
-    if cannot is None:
-      rep.undecided('R2/reconciliation', 'missing-geo guard', norm(gt)[:80], f.loc(gn.expr))
+  if guard is None:
+    if n_guard_candidates:
+      rep.undecided('R2/reconciliation', 'missing-geo guard', 'a raising guard on the eligibility and data geos exists but its set expression is not understood', f.loc())
     else:
-      try:
-        mk = boolset.eval_set(env3, cannot, lambda x: fields.get(x.attr) if isinstance(x, ast.Attribute) and norm(x.value) == 'geo_assignments' else None)
-        want = fields['all'] & env3.neg(fields['x'])
-        rep.check(mk == want, 'R2/reconciliation', 'the geos that must be present are exactly those whose row forbids exclusion', f.qualname, norm(cannot)[:100],
-                  'the set of geos required to be in the data is `%s` (rows %s), but every geo whose row forbids exclusion (rows %s) must be required: a missing must-include geo is silently dropped'
-                  % (norm(cannot)[:80], sorted(env3.table(mk)), sorted(env3.table(want))), f.loc(gn.expr))
-      except Undecided as ex:
-        rep.undecided('R2/reconciliation', 'missing-geo guard', str(ex), f.loc(gn.expr))
-    rep.check(gn in doms[selnode], 'R2/reconciliation', 'the rejection dominates the narrowing of the eligibility table', f.qualname, norm(selnode.ast)[:100],
-              'the eligibility table is narrowed on a path that skips the check for missing must-include geos', f.loc(selnode.ast))
-    for r in g.reachable([m_ for m_, lab in g.succ[gn] if lab == 'true'][0], cfgmod.no_exc):
+      rep.violation('R2/reconciliation', f.qualname, 'no rejection of missing must-include geos',
+                    'TBRMMData no longer rejects eligibility rows of geos that cannot be excluded but are absent from the data', f.loc())
+  else:
+    gn, ge, gmask, greach = guard
+    rep.check(gmask == want_missing, 'R2/reconciliation', 'the geos that must be present are exactly those whose row forbids exclusion', f.qualname, norm(ge)[:100],
+              'the set of geos whose absence from the data is rejected is `%s` (rows (c,t,x,in data) %s), but every geo whose row forbids exclusion and that is not in the data (rows %s) must be rejected: a missing must-include geo is silently dropped'
+              % (norm(rd.expand(gn, ge, keep=keepr, aliases=True)[0])[:80], sorted(env4.table(gmask & in_table)), sorted(env4.table(want_missing))), f.loc(gn.expr))
+    for r in greach:
       if r.kind == 'raisestmt':
         exn = norm(r.ast.exc.func) if isinstance(r.ast.exc, ast.Call) else norm(r.ast.exc)
         rep.check(exn == 'ValueError', 'R2/reconciliation', 'missing must-include geos raise ValueError', f.qualname, norm(r.ast)[:80],
                   'missing must-include geos raise %s instead of ValueError' % exn, f.loc(r.ast))
-    se = rd.expand(selnode, sel.slice, keep=('geo_assignments', 'geos_in_data'))[0]
+    if selnode is not None:
+      # the narrowing must not be reachable without having passed the rejection: no path entry -> narrowing avoiding the guard
+      byp = g.path_avoiding(g.entry, lambda m_: m_ is selnode, lambda m_: m_ is gn, cfgmod.no_exc)
+      rep.check(byp is None, 'R2/reconciliation', 'the rejection lies on every path to the narrowing of the eligibility table', f.qualname, norm(selnode.ast)[:100],
+                'the eligibility table is narrowed on a path that skips the check for missing must-include geos', f.loc(selnode.ast))
+  if selnode is None:
+    rep.undecided('R2/reconciliation', 'narrowing', 'no `geo_eligibility.data.loc[...]` narrowing found', f.loc())
+  else:
+    se = rd.expand(selnode, sel.slice, keep=keepr, aliases=True)[0]
     wrapped = False
     while isinstance(se, ast.Call) and isinstance(se.func, ast.Name) and se.func.id in ('sorted', 'list', 'tuple') and len(se.args) == 1:
       se, wrapped = se.args[0], True
-    st = norm(rd.expand(selnode, sel.slice, keep=('geo_assignments', 'geos_in_data'))[0])
-    rep.check(wrapped and norm(se) in ('geos_in_data & geo_assignments.all', 'geo_assignments.all & geos_in_data'), 'R2/reconciliation',
-              'the table is narrowed to the geos common to data and eligibility', f.qualname, 'loc[%s]' % st[:100],
-              'the eligibility table is narrowed with `%s`, not with the geos present in both the data and the table' % st[:80], f.loc(sel))
+    st = norm(se)
+    try:
+      nmask = boolset.eval_set(env4, se, lookup4)
+      rep.check(wrapped and nmask & in_table == want_common and nmask & env4.neg(in_table) & env4.neg(D) == 0, 'R2/reconciliation',
+                'the table is narrowed to the geos common to data and eligibility (as a list)', f.qualname, 'loc[%s]' % st[:100],
+                'the eligibility table is narrowed with `%s`%s, not with the list of geos present in both the data and the table' % (st[:80], '' if wrapped else ' (a set, which pandas rejects as indexer)'), f.loc(sel))
+    except Undecided as ex:
+      rep.undecided('R2/reconciliation', 'narrowing', str(ex), f.loc(sel))
+  env3, fields, _ = c16.class_functions(repo)
   sa = store('assignable')
   at = norm(rd.expand(sa, sa.ast.value, keep=('geo_assignments',))[0])
   try:
